@@ -190,6 +190,22 @@ pub fn run(a: &Args, out: &mut Out) {
     }
     // mismatching and matching (document, target type) pairs: every family type against documents written for the others
     out.case(&format!("CASE {} {}", id, usize::BITS));
+    // vectors longer than any plausible pre-allocation cap (4097, 9000 elements), flat and nested
+    {
+        out.case(&format!("CASE {} {}", id, usize::BITS));
+        for (ty, n_outer, n_inner) in [("vec(i32)", 4097usize, 0usize), ("vec(i32)", 9000, 0), ("vec(vec(vec(i32)))", 1, 4100), ("vec(str)", 4200, 0)] {
+            let e = fam.iter().find(|e| e.ty == ty).unwrap();
+            let v0 = if n_inner == 0 { DV::Vec((0..n_outer).map(|k| if ty == "vec(str)" { DV::Str(format!("s{}", k % 97)) } else { DV::I32((k as i32 % 1000) - 500) }).collect()) }
+                     else { DV::Vec(vec![DV::Vec(vec![DV::Vec((0..n_inner).map(|k| DV::I32(k as i32 % 77)).collect()), DV::Vec(vec![])])]) };
+            if let Some((canon, o)) = (e.ser.unwrap())(&v0) {
+                let line = format!("SER {} {}", e.ty, dv_txt(&canon, false)); out.case(&line); out.imp(&format!("{} {}", id, o)); evals += 1;
+                if o.starts_with("SER 0") { let bytes = shopify_function_provider::write::verif_output_bytes();
+                    let line = format!("RT {} {}", e.ty, dv_txt(&canon, false)); out.case(&line); out.imp(&format!("{} {}", id, (e.de)(&bytes))); evals += 1; }
+            }
+        }
+        out.case("END"); id += 1;
+        out.case(&format!("CASE {} {}", id, usize::BITS));
+    }
     let npairs = if thorough { 20000 } else { 2500 };
     for _ in 0..npairs {
         let (_, d) = rng.pick(&docs).clone(); let e = rng.pick(&fam);
@@ -199,6 +215,8 @@ pub fn run(a: &Args, out: &mut Out) {
     for (ty, doc) in [("tuple(i32,str)", "9205a161"), ("tuple(i32,str)", "920505"), ("tuple(i32,str)", "9305a161c0"), ("arr(3,i32)", "93010203"), ("arr(3,i32)", "920102"), ("arr(3,i32)", "930102cb3ff8000000000000"),
                       ("int(u8)", "ccff"), ("int(u8)", "cd0100"), ("int(u8)", "cb406fe00000000000"), ("int(i8)", "d080"), ("int(i8)", "d1ff7f"), ("int(i64)", "cb43e0000000000000"), ("int(u64)", "cf0020000000000001"),
                       ("map(tuple(i32,i32))", "81a16b920102"), ("map(tuple(i32,i32))", "82a16b920102a16b920304"), ("arr(0,unit)", "90"), ("arr(0,unit)", "91c0"), ("vec(int(u16))", "92cdffffce00010000"),
+                      ("tuple(i32,str)", "82a17805a179a161"), ("arr(3,i32)", "83a16101a16202a16303"), ("arr(0,unit)", "80"), ("map(tuple(i32,i32))", "81a16b82a17801a17902"),
+                      ("tuple(bool,f64,vec(i32))", "83a161c3a162cb3ff8000000000000a16390"), ("arr(2,opt(str))", "82a161c0a162a178"),
                       ("f64", "05"), ("i32", "cb4014000000000000"), ("str", "05"), ("bool", "c0"), ("unit", "c2"), ("opt(i32)", "c0"), ("vec(i32)", "81a16101"), ("map(i32)", "9101")] {
         let line = format!("DE {} {}", ty, doc); let e = fam.iter().find(|e| e.ty == ty).unwrap(); out.case(&line); out.imp(&format!("{} {}", id, (e.de)(&unhex(doc)))); evals += 1;
     }
